@@ -147,7 +147,7 @@ fn c05_bmca_two_ports() {
             0 => t.none(),
             1 => t.n == 2 && t.reset_receipt == 1 && t.reset_delay == 1 && t.dur_delay.as_secs() == 0 /* the code uses the const Duration::ZERO, whose sub-second field Kani 0.68 does not model faithfully; the seconds are compared */,
             2 => t.n == 1 && t.reset_receipt == 1,
-            _ => t.n == 2 && t.reset_announce == 1 && t.reset_sync == 1 && t.dur_announce == core::time::Duration::from_secs(0) && t.dur_sync == core::time::Duration::from_secs(0),
+            _ => t.n == 2 && t.reset_announce == 1 && t.reset_sync == 1 && t.dur_announce.as_secs() == 0 && t.dur_sync.as_secs() == 0,
         }
     };
     assert!(timers_ok(x1, &t1) && timers_ok(x2, &t2), "C12: state change without the timers that keep the new state alive");
